@@ -420,6 +420,8 @@ func runCase(rp *Replay, cg *caseGen) (*Case, error) {
 	stream := "chain"
 	if strings.HasPrefix(rp.Name, "exhaustive-") {
 		stream = "exhaustive"
+	} else if strings.HasPrefix(rp.Name, "empty-first-") {
+		stream = "empty-first"
 	} else if rp.Name != "" {
 		stream = "corpus"
 	} else if rp.Sel != nil {
@@ -542,6 +544,63 @@ func corpus() []Replay {
 				{Kind: "zero", Limit: 1, Wait: true, Rpc: true}, {Kind: "posonly", Limit: 1}, {Kind: "same", Limit: 7, Rpc: true}},
 		},
 	}
+}
+
+// emptyFirst: reads whose first page is empty - the request names Pos "tail", or "head"/"" with a WHERE condition no
+// stored event meets yet - then events are appended and the read is resumed in each of the resume kinds, with a
+// server-cached cursor (limit above QueryMaxLimit: cached without waiting) and without, over 1 and 2 partitions.
+// The position the empty page returns must be a concrete one: what is appended after it has to be delivered.
+func emptyFirst() []Replay {
+	var out []Replay
+	n := 0
+	for _, start := range []string{"tail", "head", ""} {
+		for _, kind := range []string{"same", "evict", "zero", "posonly"} {
+			for _, cached := range []bool{false, true} {
+				n++
+				nparts := 1 + n%2
+				rp := Replay{Name: fmt.Sprintf("empty-first-%s-%s-%v-%d", start, kind, cached, nparts), Chunk: int64([]int{60, 1000000}[(n/2)%2]), Start: start}
+				marker := "m"
+				if start != "tail" {
+					// nothing stored matches; the appended events do
+					rp.Flt = Filter{Needle: "q"}
+					marker = "q"
+				}
+				ts := int64(1000)
+				ev := func(mk string) Ev {
+					ts++
+					e := Ev{Ts: ts, Msg: fmt.Sprintf("%s%05d", mk, ts%100000)}
+					if ts%3 == 0 {
+						e.Flds = fmt.Sprintf("f=v%d", ts)
+					}
+					return e
+				}
+				for p := 0; p < nparts; p++ {
+					rp.Init = append(rp.Init, Batch{Part: p, Evs: []Ev{ev("m"), ev("m")}})
+				}
+				apps := func(k int) []Batch {
+					var bs []Batch
+					for p := 0; p < nparts; p++ {
+						b := Batch{Part: p}
+						for i := 0; i < k; i++ {
+							b.Evs = append(b.Evs, ev(marker))
+						}
+						bs = append(bs, b)
+					}
+					return bs
+				}
+				first := int64(3)
+				if cached {
+					first = 10001
+				}
+				rp.Steps = []Step{{Kind: "same", Limit: first, Rpc: n%3 == 0},
+					{Kind: kind, Limit: 2, Apps: apps(2), Rpc: n%2 == 0},
+					{Kind: "same", Limit: first, Apps: apps(1)},
+					{Kind: kind, Limit: 7, Rpc: n%3 == 1}}
+				out = append(out, rp)
+			}
+		}
+	}
+	return out
 }
 
 // pickInt64 picks one of the values
